@@ -6,10 +6,10 @@ LEVEL_TEXT = ('bounded: list(Tokenizer().tokenize(text, fullsheet)) for ALL stri
               'separators: terminates, the spans tile the text, value == span decoded by an independent CSS 2.1 decoder, line/col == position of the first character, span in the '
               'language of the type (own recognisers) and maximal, known sequences recovered with types/values/offsets, completion + exactly one EOF at the end of input in full-sheet '
               'mode; positions in the error reports of a raising parser')
-LEVEL_NOTE = ('no proof obligations here (the T1 side - loop contract and regex-language lemmas of DESIGN section 3 - is separate); blind to strings longer than the bound that are not '
-              'repetitive or built from the spelling inventory, and to code points outside the alphabet; time is only observed as "finishes within 30 s per text"; eleven recorded '
+LEVEL_NOTE = ('deciding step is the bounded enumeration; discharged besides it: the regex-language lemmas on the real token table (T1-regex, z3 + automata back end) and the error handler contract; the loop contract of Tokenizer.tokenize (contracts/tokenize2.py: termination, tiling, line/col, EOF; modular cut, ~330 paths) is discharged in the thorough tier only (about 5 minutes). Bounded part: blind to strings longer than the bound that are not '
+              'repetitive or built from the spelling inventory, and to code points outside the alphabet; time is only observed as "finishes within 30 s per text"; ten recorded '
               'deviations (known/C05.json) are excluded by symptom, the two exponential-time classes by cutting the input to 12 backslashes / 10 escapes')
-TECHNIQUE = 'bounded run-time contracts on the real tokenizer over exhaustively enumerated short strings and constructed token sequences (reference decoder and recognisers written from CSS 2.1)'
+TECHNIQUE = 'regular-language lemmas on the real token table decided by z3 regex + an own automata back end; errorhandler contract by VC generation; bounded run-time contracts on the real tokenizer over exhaustively enumerated short strings and constructed token sequences (reference decoder and recognisers written from CSS 2.1)'
 DESIGN_REF = 'DESIGN.md section 3, C05 (T2 clause); Appendix C "Token-snippet alphabet"'
 
 
@@ -20,3 +20,20 @@ def bounded(ctx):
     c05.long_texts(ctx)
     c05.error_positions(ctx)
     c05.witnesses(ctx)
+
+
+# T1-regex: closed regular-language lemmas on the real, macro-expanded token table (no production matches the empty string, CHAR/INVALID
+# give progress, every production equals its CSS 2.1 G.2 definition, first-match order facts, look-aheads are language neutral)
+def lemmas(ctx):
+    from contracts import tokenizer_lemmas as TL
+    TL.lemmas(ctx)
+
+
+# T1 (PyVC): errorhandler - the message suffix [line:col: value] comes from the token complained about (last clause of the statement)
+T1 = [('contracts.errorhandler', None)]
+
+# thorough tier only (about 5 minutes on 16 cores): the loop contract of Tokenizer.tokenize (contracts/tokenize2.py) - one cut at the head of
+# the scanning loop, explored modularly (entry phase: the code before the loop establishes the invariant; body phase: one arbitrary
+# iteration from the invariant alone, about 320 paths): termination (variant len(text) - pos), line/col of every yielded token == line/col
+# of its first character, at most one token per step whose raw text is exactly the consumed piece (tiling), EOF at the end of input
+T1_THOROUGH = [('contracts.tokenize2', None)]
